@@ -68,6 +68,21 @@ func c08Enumerate(tier string, yield func(any)) {
 		}
 	}
 	rec(nil)
+	// long certificate lists: the entries a profile entry has to find stand behind 60..256 others
+	longProfiles := [][]c08PEntry{
+		{{1, 1, false, true}}, {{1, 1, false, false}}, {{1, 2, false, true}, {1, 1, false, false}}, {{1, 2, true, false}, {1, 1, false, true}},
+		{{0, 1, false, true}, {1, 1, false, true}}, {{1, 0, false, true}, {1, 0, false, true}},
+	}
+	for _, n := range []int{31, 32, 33, 62, 63, 64, 65, 66, 70, 127, 128, 129, 255, 256, 257} {
+		var cl [][2]int
+		for i := 0; i < n; i++ {
+			cl = append(cl, [2]int{0, 1 + i%2})
+		}
+		cl = append(cl, [2]int{1, 2}, [2]int{1, 1})
+		for _, p := range longProfiles {
+			yield(&c08Case{Prof: p, Cert: cl})
+		}
+	}
 	c08PipeEnumerate(tier, yield)
 }
 
@@ -213,7 +228,7 @@ func init() {
 	register(&engine.Check{
 		ID:          "C08",
 		Level:       "model_checking",
-		Rule:        "every profile extension list of length <=2 (quick) / <=3 (thorough) over 24 entries (OID {A,B} x content {1,2,none} x optional x override) x every certificate extension list of length <=3 / <=4 over 6 entries: real config.Merge on a harness ExtensionConfig type vs. the 15-line reference merge transcribed from the statement, plus input-unchanged comparison; and the file pipeline with real extension kinds (profile lists <=2 x certificate lists <=2 over 4 kinds): certificate extension list vs. reference, content-less survivor => error and no file; then the same profile shared by three certificates in one run (inheriting everything / the list / the list reversed), each compared with the reference merge of its own list. Pairs distinct by construction; states = profile lists, transitions = Merge calls / runs",
+		Rule:        "every profile extension list of length <=2 (quick) / <=3 (thorough) over 24 entries (OID {A,B} x content {1,2,none} x optional x override) x every certificate extension list of length <=3 / <=4 over 6 entries: real config.Merge on a harness ExtensionConfig type vs. the 15-line reference merge transcribed from the statement, plus input-unchanged comparison; 6 profile lists against certificate lists of 33..259 extensions (the matched entries behind 31..257 others); and the file pipeline with real extension kinds (profile lists <=2 x certificate lists <=2 over 4 kinds): certificate extension list vs. reference, content-less survivor => error and no file; then the same profile shared by three certificates in one run (inheriting everything / the list / the list reversed), each compared with the reference merge of its own list. Pairs distinct by construction; states = profile lists, transitions = Merge calls / runs",
 		Bound:       map[string]string{"profile list": "quick<=2 thorough<=3", "certificate list": "quick<=3 thorough<=4", "OIDs": "2", "contents": "2 + none"},
 		Assumptions: []string{"'differs' is configuration-entry difference (the statement's wording), modelled by the JSON form of the harness type"},
 		Budget:      budgets(quickBudget, thoroughBudget),
